@@ -12,6 +12,20 @@
 (*              precomposed capital (J + U+030C for U+01F0)                *)
 (*    alabel    A-label "xn--..."           alabelup  "XN--..." (DNS is    *)
 (*              case-insensitive)           alabelmix "xn--" + upper tail  *)
+(*    updot     capital I with dot above U+0130 for the first i (its       *)
+(*              lower case is i), precomposed                              *)
+(*    updotnfd  the same decomposed: I + U+0307.  Lower-casing BEFORE      *)
+(*              composing gives i + U+0307, which is not the canonical     *)
+(*              string: the spelling on which the order NFC, lower, NFC    *)
+(*              matters in the other direction than for upperd             *)
+(* A domain may be written with the root label (FQDN spelling, trailing    *)
+(* dot): a third, last label Root whose only spelling is the empty string. *)
+(* The lookup key drops it (dns.ForLookup), CleanDomain and the            *)
+(* conversions keep it.  The statement does not list it among the variants *)
+(* that must share one key, so the bases of Id() include it: one key is    *)
+(* demanded only between addresses written alike in this respect, while    *)
+(* "comparison coincides with equality of keys", symmetry and transitivity *)
+(* are demanded across it.                                                 *)
 (* The model knows only names; the concrete strings are a table in the     *)
 (* harness (harness/addresscheck/table.go), derived from the canonical     *)
 (* string with golang.org/x/text and x/net/idna (trusted).                 *)
@@ -32,7 +46,7 @@ CONSTANTS Devs,     \* deviations switched on
           StrLen,   \* string layer: maximal number of symbols
           Gen       \* TRUE: print the case list (ROW lines)
 
-AllDevs == {"UpperACE", "LowerDenorm", "IsASCII128"}
+AllDevs == {"UpperACE", "LowerDenorm", "LowerFirst", "IsASCII128"}
 
 ----------------------------------------------------------------------------
 (* layer 1: the variant algebra *)
@@ -40,7 +54,11 @@ AllDevs == {"UpperACE", "LowerDenorm", "IsASCII128"}
 LpSpell  == [user |-> {"lower", "upper", "mixed"},
              jose |-> {"lower", "upper", "nfd", "uppernfd"},
              jx   |-> {"lower", "nfd", "upperd"},
-             fw   |-> {"lower", "upper"}]
+             fw   |-> {"lower", "upper"},
+             \* ist: "istanbul", also spelled with the dotted capital I; sig: a local part ending
+             \* in sigma U+03C3 (context-sensitive lower-casing would make it final sigma)
+             ist  |-> {"lower", "upper", "updot", "updotnfd"},
+             sig  |-> {"lower", "upper"}]
 LabSpell == [ex |-> {"lower", "upper", "mixed"},
              e1 |-> {"lower", "upper", "nfd", "uppernfd", "alabel", "alabelup", "alabelmix"},
              \* ss: sharp s; uppercs spells it with the capital sharp s U+1E9E
@@ -53,24 +71,44 @@ LabSpell == [ex |-> {"lower", "upper", "mixed"},
              s0 |-> {"lower", "upper", "alabel", "alabelup"},
              sh |-> {"lower", "upper", "alabel", "alabelup"},
              sd |-> {"lower", "upper", "alabel", "alabelup"},
-             di |-> {"lower", "alabel", "alabelup"}]
+             di |-> {"lower", "alabel", "alabelup"},
+             \* il: the ASCII label "istanbul", also spelled with the dotted capital I
+             il |-> {"lower", "upper", "updot", "updotnfd"}]
 \* gs: a last label ending in sigma U+03C3 (end of the domain)
 TldSpell == [com |-> {"lower", "upper"}, gs |-> {"lower", "upper", "alabel"}]
-AsciiBase == {"user", "ex", "com"}
+AsciiBase == {"user", "ex", "com", "il", "root"}
+AsciiSpell == {"lower", "upper", "mixed"}     \* the spellings of an ASCII base that are ASCII
+\* the root label: one spelling (the empty string after the last dot)
+Root == [b |-> "root", s |-> "lower"]
+Rooted(d) == Len(d) > 0 /\ d[Len(d)] = Root
+Unroot(d) == IF Rooted(d) THEN SubSeq(d, 1, Len(d) - 1) ELSE d
 
 Lps  == UNION {{[b |-> b, s |-> s] : s \in LpSpell[b]} : b \in DOMAIN LpSpell}
 Labs == UNION {{[b |-> b, s |-> s] : s \in LabSpell[b]} : b \in DOMAIN LabSpell}
 Tlds == UNION {{[b |-> b, s |-> s] : s \in TldSpell[b]} : b \in DOMAIN TldSpell}
-\* every local part x label under com; the non-ASCII last label with the ASCII local part
-InSpace(l, t) == t.b = "com" \/ l.b = "user"
-Addrs == {a \in {[lp |-> l, dom |-> <<d, t>>] : l \in Lps, d \in Labs, t \in Tlds} : InSpace(a.lp, a.dom[2])}
+\* every local part x label under com; the non-ASCII last label with the ASCII local part;
+\* the bases added for the dotted capital I / the sigma local part with a few labels only
+InSpace(l, d, t) == /\ t.b = "com" \/ l.b = "user"
+                    /\ l.b \in {"ist", "sig"} => d.b \in {"ex", "e1", "il"}
+                    /\ d.b = "il" => l.b \in {"user", "ist"}
+\* every domain without and with the root label
+Doms == {<<d, t>> : d \in Labs, t \in Tlds} \cup {<<d, t, Root>> : d \in Labs, t \in Tlds}
+Addrs == {a \in {[lp |-> l, dom |-> dm] : l \in Lps, dm \in Doms} : InSpace(a.lp, a.dom[1], a.dom[2])}
 
 Id(a) == [lp |-> a.lp.b, dom |-> [i \in DOMAIN a.dom |-> a.dom[i].b]]
 DomId(a) == [i \in DOMAIN a.dom |-> a.dom[i].b]
-Class(a) == {x \in Addrs : Id(x) = Id(a)}
+\* every spelling of the address a (same bases, same way with respect to the root label), built
+\* from the spelling tables (membership in Addrs depends on the bases only)
+Class(a) == {[lp |-> [b |-> a.lp.b, s |-> s1],
+              dom |-> <<[b |-> a.dom[1].b, s |-> s2], [b |-> a.dom[2].b, s |-> s3]>>
+                      \o (IF Rooted(a.dom) THEN <<Root>> ELSE <<>>)] :
+               s1 \in LpSpell[a.lp.b], s2 \in LabSpell[a.dom[1].b], s3 \in TldSpell[a.dom[2].b]}
 \* the address as it is written canonically, one per identity
 Canon(a) == [lp |-> [b |-> a.lp.b, s |-> "lower"], dom |-> [i \in DOMAIN a.dom |-> [b |-> a.dom[i].b, s |-> "lower"]]]
 Reps == {a \in Addrs : a = Canon(a)}
+\* the spellings of the same address written the other way with respect to the root label
+FlipRoot(a) == [lp |-> a.lp, dom |-> IF Rooted(a.dom) THEN Unroot(a.dom) ELSE a.dom \o <<Root>>]
+RootVar(a) == {FlipRoot(x) : x \in Class(a)}
 
 \* dns.ForLookup / the domain half of address.ForLookup and CleanDomain on one label:
 \* A-label -> U-label, NFC, lower case
@@ -78,21 +116,26 @@ NormLabel(D, l) ==
   [b |-> l.b,
    s |-> CASE l.s = "alabelup" /\ "UpperACE" \in D  -> "alabel"  \* prefix not recognised: only lower-cased
            [] l.s = "upperd" /\ "LowerDenorm" \in D -> "nfd"     \* lower-casing after NFC leaves j + U+030C
+           [] l.s = "updotnfd" /\ "LowerFirst" \in D -> "lowdotnfd"  \* lower-casing before NFC leaves i + U+0307
            [] OTHER -> "lower"]
-\* the local part: NFC, lower case
+\* the local part: NFC, lower case, NFC
 NormLp(D, l) ==
-  [b |-> l.b, s |-> IF l.s = "upperd" /\ "LowerDenorm" \in D THEN "nfd" ELSE "lower"]
+  [b |-> l.b, s |-> IF l.s = "upperd" /\ "LowerDenorm" \in D THEN "nfd"
+                    ELSE IF l.s = "updotnfd" /\ "LowerFirst" \in D THEN "lowdotnfd" ELSE "lower"]
 
-NormDom(D, d) == [i \in DOMAIN d |-> NormLabel(D, d[i])]
+\* the key of a domain: every label normalised, the root label dropped
+NormDom(D, d) == LET u == Unroot(d) IN [i \in DOMAIN u |-> NormLabel(D, u[i])]
+\* CleanDomain: every label normalised, the root label kept
+CleanDom(D, d) == NormDom(D, d) \o (IF Rooted(d) THEN <<Root>> ELSE <<>>)
 Key(D, a)   == [lp |-> NormLp(D, a.lp), dom |-> NormDom(D, a.dom)]
-Clean(D, a) == [lp |-> a.lp, dom |-> NormDom(D, a.dom)]
+Clean(D, a) == [lp |-> a.lp, dom |-> CleanDom(D, a.dom)]
 EqualM(D, a, b) == a = b \/ Key(D, a) = Key(D, b)
 DEqualM(D, x, y) == x = y \/ NormDom(D, x) = NormDom(D, y)
 
 \* forms in which ASCII/Unicode conversion is specified (valid addresses as they
 \* are written: canonical U-labels, canonical A-labels, ASCII in any case)
-ALabelForm(l) == l.b \in AsciiBase \/ l.s = "alabel"
-ULabelForm(l) == l.b \in AsciiBase \/ l.s = "lower"
+ALabelForm(l) == (l.b \in AsciiBase /\ l.s \in AsciiSpell) \/ l.s = "alabel"
+ULabelForm(l) == (l.b \in AsciiBase /\ l.s \in AsciiSpell) \/ l.s = "lower"
 ConvForm(a) == a.lp.b \in AsciiBase /\ \A i \in DOMAIN a.dom : ALabelForm(a.dom[i]) \/ ULabelForm(a.dom[i])
 AForm(a) == ConvForm(a) /\ \A i \in DOMAIN a.dom : ALabelForm(a.dom[i])
 UForm(a) == ConvForm(a) /\ \A i \in DOMAIN a.dom : ULabelForm(a.dom[i])
@@ -113,7 +156,7 @@ Model2(D, a, b) ==
   [eqab |-> EqualM(D, a, b), eqba |-> EqualM(D, b, a), ka |-> Key(D, a), kb |-> Key(D, b),
    deqab |-> DEqualM(D, a.dom, b.dom), deqba |-> DEqualM(D, b.dom, a.dom),
    dka |-> NormDom(D, a.dom), dkb |-> NormDom(D, b.dom),
-   cda |-> NormDom(D, a.dom), cdb |-> NormDom(D, b.dom)]
+   cda |-> CleanDom(D, a.dom), cdb |-> CleanDom(D, b.dom)]
 Model3(D, a, b, c) ==
   [eqab |-> EqualM(D, a, b), eqbc |-> EqualM(D, b, c), eqac |-> EqualM(D, a, c)]
 
@@ -302,7 +345,7 @@ VARIABLE st     \* algebra: an address; string: a symbol sequence
 
 \* algebra: local part and tld are chosen first (initial states), the label in one step,
 \* so that the workers share the addresses; string: one symbol is appended per step
-Init == IF Layer = "algebra" THEN st \in {x \in {[lp |-> l, dom |-> <<t>>] : l \in Lps, t \in Tlds} : InSpace(x.lp, x.dom[1])}
+Init == IF Layer = "algebra" THEN st \in {[lp |-> l, dom |-> dm] : l \in Lps, dm \in {<<t>> : t \in Tlds} \cup {<<t, Root>> : t \in Tlds}}
         ELSE st = <<>>
 Next == \/ /\ Layer = "string"
            /\ Len(st) < StrLen
@@ -314,18 +357,20 @@ Next == \/ /\ Layer = "string"
            /\ Len(st) < StrLen
            /\ \E c \in DSym : st' = Append(st, c)
         \/ /\ Layer = "algebra"
-           /\ Len(st.dom) = 1
-           /\ \E d \in Labs : st' = [lp |-> st.lp, dom |-> <<d, st.dom[1]>>]
+           /\ st.dom[1] \in Tlds
+           /\ \E d \in Labs : InSpace(st.lp, d, st.dom[1]) /\ st' = [lp |-> st.lp, dom |-> <<d>> \o st.dom]
 Spec == Init /\ [][Next]_st
-Complete == Layer \in {"string", "string2", "domain"} \/ Len(st.dom) = 2
+Complete == Layer \in {"string", "string2", "domain"} \/ st.dom[1] \in Labs
 
 AlgebraLaws ==
   Layer = "algebra" /\ Complete =>
     /\ Viol1(st, Model1(Devs, st)) = {}
     \* pairs: every variant of the same address and the canonical spelling of every other one;
     \* triples: the variants that share the spelling of the local part
-    /\ \A b \in Class(st) \cup Reps : Viol2(st, b, Model2(Devs, st, b)) = {}
-    /\ \A b, c \in {x \in Class(st) : x.lp = st.lp} : Viol3(Model3(Devs, st, b, c)) = {}
+    \* and the same address written the other way with respect to the root label
+    /\ \A b \in Class(st) \cup Reps \cup RootVar(st) : Viol2(st, b, Model2(Devs, st, b)) = {}
+    /\ \A b, c \in {x \in Class(st) \cup RootVar(st) : x.lp = st.lp /\ x.dom[2] = st.dom[2]} :
+          Viol3(Model3(Devs, st, b, c)) = {}
     /\ ConvForm(st) => /\ ToASCIIM(ToUnicodeM(st)) = ToASCIIM(st)
                        /\ ToUnicodeM(ToASCIIM(st)) = ToUnicodeM(st)
                        /\ (AForm(st) => ToASCIIM(st) = st)
